@@ -7,6 +7,8 @@ import json, sys
 L = "lemma"; G = "locally-guarded"; U = "unreachable-from-roots"; S = "sdk-invariant"; N = "not-partial"; V = "validator-only"
 CODEC = "the value was decoded from the wire / the store by the same registered codec (or is a plain proto message), so re-encoding / decoding cannot fail"
 RULES = [
+ # --- teleport/types
+ ("types/events.go", "EmitTypedEvent", "index", "event.Attributes[", G, "i, j are supplied by sort.SliceStable and range over len(event.Attributes)"),
  # --- bsc
  ("bsc/types/client_state.go", "ClientState.Initialize", "div", "% m.Epoch", L, "TM.NoPanic.bsc_init_guarded (ClientState.Validate rejects Epoch = 0 — fixes/C15-bsc-clientstate-validate)"),
  ("bsc/types/client_state.go", "ClientState.UpgradeState", "div", "% m.Epoch", L, "TM.NoPanic.bsc_upgrade_guarded"),
